@@ -6,6 +6,7 @@ import (
 	"bytes"
 	"context"
 	"fmt"
+	"reflect"
 	"regexp"
 	"strings"
 	"testing/fstest"
@@ -183,6 +184,10 @@ func c08Eval(cs c08Case) *Case {
 }
 
 func runC08(r *Run, replay *Case) {
+	if replay != nil && replay.Input["shared"] == true {
+		r.Add(c08Shared(replay.Input["theme"] == true, replay.Input["dataYml"] == true, replay.Input["fm"] == true, replay.Input["shape"].(string)))
+		return
+	}
 	if replay != nil {
 		var cs c08Case
 		remarshal(replay.Input["case"], &cs)
@@ -248,6 +253,87 @@ func runC08(r *Run, replay *Case) {
 			}
 		}
 	}
+	// isolation when callers pass the SAME map to several templates of the tree: what one template is given afterwards (Assign, Fill) is
+	// seen by no sibling, parent or child, and the caller's map is not written to. For every presence pattern of the other sources.
+	for mask := 0; mask < 8; mask++ {
+		for _, shape := range []string{"siblings-new", "siblings-load", "parent-child", "child-parent"} {
+			r.Add(c08Shared(mask&1 != 0, mask&2 != 0, mask&4 != 0, shape))
+		}
+	}
 	r.Res.Exhaustive = true
 	_ = strings.TrimSpace
+}
+
+func c08Shared(theme, dataYml, fm bool, shape string) *Case {
+	mfs := fstest.MapFS{}
+	put := func(n, src string) { mfs[n] = &fstest.MapFile{Data: []byte(src), ModTime: time.Unix(1700000000, 0)} }
+	if theme {
+		put("theme.yml", "k: theme\n")
+	}
+	if dataYml {
+		put("data/site.yml", "k: datayml\n")
+	}
+	page := "<p>[mustache:{{ k }}][role:{{ role }}]</p>"
+	if fm {
+		page = "---\nk: fm\n---\n" + page
+	}
+	put("page.vuego", page)
+	c := &Case{Name: fmt.Sprintf("shared fill map theme=%v data=%v fm=%v %s", theme, dataYml, fm, shape), Input: map[string]any{"shared": true, "theme": theme, "dataYml": dataYml, "fm": fm, "shape": shape},
+		Key: fmt.Sprintf("shared|%v|%v|%v|%s", theme, dataYml, fm, shape), Oracle: &Verdict{OK: true}, Tags: []string{"stream:shared-map", "shape:" + shape}}
+	fail := func(cls, f string, a ...any) {
+		if c.Oracle.OK {
+			c.Oracle = &Verdict{OK: false, Class: cls, Detail: fmt.Sprintf(f, a...)}
+		}
+	}
+	shared := map[string]any{"k": "fill", "zz": 1}
+	base := vuego.NewFS(mfs)
+	var actor, witness vuego.Template
+	switch shape {
+	case "siblings-new":
+		actor, witness = base.New().Fill(shared), base.New().Fill(shared)
+	case "siblings-load":
+		actor, witness = base.Load("page.vuego").Fill(shared), base.Load("page.vuego").Fill(shared)
+	case "parent-child":
+		witness = base.New().Fill(shared)
+		actor = witness.New().Fill(shared)
+	case "child-parent":
+		actor = base.New().Fill(shared)
+		witness = actor.New().Fill(shared)
+	}
+	wantK := "fill"
+	if fm && shape == "siblings-load" {
+		wantK = "fm"
+	}
+	before := witness.Get("k")
+	actor.Assign("k", "assigned-elsewhere")
+	actor.Assign("role", "admin")
+	actor.Fill(map[string]any{"k": "filled-elsewhere", "role": "root"})
+	if g := witness.Get("k"); g != before {
+		fail("child-changes-parent:shared-map", "%s: witness.Get(k) changed from %q to %q after calls on another template", shape, before, g)
+	}
+	if g := witness.Get("role"); g != "" {
+		fail("child-changes-parent:shared-map", "%s: witness sees role=%q which only another template was given", shape, g)
+	}
+	if !reflect.DeepEqual(shared, map[string]any{"k": "fill", "zz": 1}) {
+		fail("caller-map-modified:fill", "%s: the map passed to Fill was changed to %v", shape, shared)
+	}
+	var buf bytes.Buffer
+	w := witness
+	if shape != "siblings-load" {
+		w = witness.Load("page.vuego")
+	}
+	if err := w.Render(context.Background(), &buf); err != nil {
+		fail("render-error", "%v", err)
+	} else {
+		out := buf.String()
+		wk := wantK
+		if fm {
+			wk = "fm"
+		}
+		if !strings.Contains(out, "[mustache:"+wk+"]") || !strings.Contains(out, "[role:]") {
+			fail("child-changes-parent:shared-map", "%s: witness renders %q, expected k=%s and no role", shape, out, wk)
+		}
+	}
+	c.Impl = buf.String()
+	return c
 }
